@@ -81,11 +81,15 @@ def harmonic(c):
         mc = Canonical(atoms, temperature=T, seed=c["seed"], max_cycles=n, logfile=None)
         mv = DisplacementMove(np.arange(n), OPS[c["move"].replace("*2", "")]())
         mc.add_move(mv * 2 if c["move"].endswith("*2") else mv, criteria=type(mc).default_criteria[DisplacementMove](), name="d")
-    e = []
+    e, acc = [], []
     for i, _ in enumerate(mc.srun(c["steps"])):
+        if c.get("T_switch") and i == c["burn"] // 2:
+            # parameters changed on the simulation object apply from the next trial on: the average after the burn-in is that of the NEW temperature
+            mc.temperature = T = c["T_switch"]
         if i >= c["burn"]:
             e.append(mc.context.last_potential_energy)
-    return {"obs": batch(e), "expected": 1.5 * n * kB * T, "acc": float(np.mean([1.0]))}
+            acc += [bool(b) for _, b in mc.move_history if b is not None]
+    return {"obs": batch(e), "expected": 1.5 * n * kB * T, "acc": float(np.mean(acc)) if acc else None}
 
 
 def dipole(c):
@@ -117,6 +121,9 @@ def isobaric(c):
     mc.add_move(CellMove(IsotropicDeformation(c["max_value"])), name="c")
     v = []
     for i, _ in enumerate(mc.srun(c["steps"])):
+        if c.get("T_switch") and i == c["burn"] // 2:
+            mc.temperature = T = c["T_switch"]
+            mc.pressure = P = c.get("P_switch", P)
         if i >= c["burn"]:
             v.append(atoms.get_volume())
     return {"obs": batch(v), "expected": (n + 1) * kB * T / P}
@@ -131,13 +138,20 @@ def grand(c):
     # chemical potential for the wanted mean: a = V exp(mu/kT) / Lambda^3, with the implementation's own de Broglie wavelength
     from quansino.mc import criteria as crit
     m = float(ex.get_masses().sum())
-    lam = math.sqrt(crit._hplanck ** 2 / (2 * np.pi * m * kB * T / crit._Nav * 1e-3 * crit._e)) * 1e10
-    mu = kB * T * math.log(a_target * lam ** 3 / L ** 3)
+
+    def mu_for(T):
+        lam = math.sqrt(crit._hplanck ** 2 / (2 * np.pi * m * kB * T / crit._Nav * 1e-3 * crit._e)) * 1e10
+        return kB * T * math.log(a_target * lam ** 3 / L ** 3)
+    mu = mu_for(T)
     mc = GrandCanonical(atoms, ex, temperature=T, chemical_potential=mu, number_of_exchange_particles=0, seed=c["seed"], max_cycles=1, logfile=None)
     mc.add_move(ExchangeMove(np.array([], dtype=int), TranslationRotation() if mol else Translation()), name="e")
     ns, frac, cos, phi = [], [], [], []
     size = len(ex)
     for i, _ in enumerate(mc.srun(c["steps"])):
+        if c.get("T_switch") and i == c["burn"] // 2:
+            # heat the running simulation; mu follows so that the exact mean stays a_target
+            mc.temperature = c["T_switch"]
+            mc.chemical_potential = mu = mu_for(c["T_switch"])
         if i >= c["burn"]:
             ns.append(len(atoms) // size)
             if i % c["thin"] == 0 and len(atoms):
